@@ -63,6 +63,15 @@ def probe(cfg, rng, ctx, partial):
     y0 = [_copy(s.state) for s in mod.sig_out]
     for y in y0:
         require(all_finite(y), "response-output-not-finite", module=cfg.name, key=cfg.key)
+    if getattr(cfg, "ref_y", None) is not None:
+        # the reference tangent models the documented response: the response the module really computes has to be that one
+        for j, (yj, rj) in enumerate(zip(y0, cfg.ref_y(cfg.x0))):
+            a_, b_ = np.asarray(todense(yj)), np.asarray(rj)
+            sc_ = max(float(np.max(np.abs(b_))) if b_.size else 0.0, 1e-300)
+            ctx.count("forward_values_compared")
+            if a_.shape != b_.shape or (b_.size and not float(np.max(np.abs(a_ - b_))) <= 1e-11 * sc_):
+                raise Violation(f"response-differs-from-documented-formula/{cfg.name}", key=cfg.key, output=j, note=cfg.note,
+                                err=float(np.max(np.abs(a_ - b_))) if a_.shape == b_.shape else None)
     nout = len(y0)
     mask = [True] * nout
     if partial and nout > 1:
